@@ -40,7 +40,7 @@ PURE_BUILTINS = {
     "sorted", "repr", "id", "round", "any", "all", "enumerate", "zip", "iter", "next", "super", "object",
 }
 PURE_LIB = {
-    "math.isfinite", "math.isnan", "math.isinf", "math.floor", "math.ceil", "datetime.timedelta",
+    "math.isfinite", "math.isnan", "math.isinf", "math.floor", "math.ceil", "math.trunc", "datetime.timedelta",
     "typing.cast", "inspect.isawaitable", "inspect.signature", "asyncio.iscoroutinefunction",
     "collections.defaultdict", "collections.deque", "threading.Lock",
 }
@@ -102,6 +102,8 @@ class PEvent:
     label: str = ""
     awaited: bool = False
     callee: Any = None  # symbolic value of the called expression (Name / Attribute callee)
+    cfg: Any = None  # the CFG the node belongs to (differs from the analysed function for inlined helpers)
+    frames: tuple = ()  # enclosing inlined call sites, outermost first: ((cfg, node), ...)
 
     @property
     def lineno(self) -> int:
@@ -245,6 +247,19 @@ class PathEngine:
         self.cfgs = cfgs
         self.kinds = cfgs.kinds
         self._cache: dict[tuple, list[SymPath]] = {}
+        self._idp: tuple = ()  # id prefix while enumerating an inlined callee
+        self._frames: tuple = ()
+        self.inline: Callable[[FuncInfo], bool] | None = default_inline()
+        self.max_inline_depth = 3
+
+    def _nid(self, node: Node) -> Any:
+        return node.id if not self._idp else self._idp + (node.id,)
+
+    def _ev(self, cfg: CFG, kind: str, node: Node, **kw: Any) -> PEvent:
+        e = PEvent(kind, node, **kw)
+        e.cfg = cfg
+        e.frames = self._frames
+        return e
 
     # ------------------------------------------------------------------ symbolic evaluation
     def sym(self, e: ast.expr | None, env: dict, store: dict, cfg: CFG) -> Any:
@@ -388,10 +403,13 @@ class PathEngine:
         env0: dict | None = None,
         max_paths: int = 60000,
         key: str = "",
+        _depth: int = 0,
     ) -> list[SymPath]:
         ck = (fi.qual, key, start, tuple(sorted(stop_at or ())))
         if raises is None and env0 is None and ck in self._cache:
             return self._cache[ck]
+        self._depth = _depth
+        self._raises = raises
         cfg = self.cfgs.get(fi)
         env: dict = {}
         for p in fi.param_names():
@@ -442,7 +460,7 @@ class PathEngine:
 
             if k in ("entry", "def", "with_enter", "with_exit", "finally_exc"):
                 if k in ("with_enter", "with_exit"):
-                    items = items + [("ev", PEvent(k, node, label=k))]
+                    items = items + [("ev", self._ev(cfg, k, node, label=k))]
                 go(items=items)
             elif k == "nop":
                 if node.info.get("loop_head"):
@@ -469,18 +487,18 @@ class PathEngine:
             elif k == "call":
                 self._call(cfg, node, env, store, items, go, raise_to, raises)
             elif k == "await":
-                ev = PEvent("await", node, label="await " + ast.unparse(node.ast.value)[:50])
+                ev = self._ev(cfg, "await", node, label="await " + ast.unparse(node.ast.value)[:50])
                 of = node.info.get("of")
                 env2 = dict(env)
                 if of is not None:
-                    env2[("$r", id(node.ast))] = env.get(("$r", id(cfg.nodes[of].ast)), ("fresh", nid, "await"))
+                    env2[("$r", id(node.ast))] = env.get(("$r", id(cfg.nodes[of].ast)), ("fresh", self._nid(node), "await"))
                     ev.result = env2[("$r", id(node.ast))]
                 else:
                     ev.recv = self.sym(node.ast.value, env, store, cfg)
                 items2 = items + [("ev", ev)]
                 if raises is not None:
                     for kind in raises(ev, cfg):
-                        raise_to(kind, None, items=items2 + [("ev", PEvent("exc", node, value=kind, label=ev.label))])
+                        raise_to(kind, None, items=items2 + [("ev", self._ev(cfg, "exc", node, value=kind, label=ev.label))])
                 go(env=env2, items=items2)
             elif k == "store":
                 val = self.sym(node.info["value"], env, store, cfg)
@@ -517,18 +535,18 @@ class PathEngine:
                     env2 = dict(env)
                     if not node.info.get("value_ctx"):
                         drop_temps(env2)
-                    go(lab, env=env2, items=items + [("cond", atom, want, node)], lits=lits2)
+                    go(lab, env=env2, items=items + [("cond", atom, want, node, cfg, self._frames)], lits=lits2)
             elif k == "iter":
                 c = visits.get(nid, 0)
                 if c == 0:
                     it = self.sym(node.info["iter"], env, store, cfg)
-                    ev = PEvent("iter", node, recv=it, label="for " + ast.unparse(node.info["target"]))
+                    ev = self._ev(cfg, "iter", node, recv=it, label="for " + ast.unparse(node.info["target"]))
                     v2 = dict(visits)
                     v2[nid] = 1
                     env2 = dict(env)
-                    self._bind_fresh(node.info["target"], nid, env2)
+                    self._bind_fresh(node.info["target"], self._nid(node), env2)
                     go("body", env=env2, items=items + [("ev", ev)], visits=v2)
-                    ev0 = PEvent("iter", node, recv=it, label=ev.label + " (zero iterations)", value="zero")
+                    ev0 = self._ev(cfg, "iter", node, recv=it, label=ev.label + " (zero iterations)", value="zero")
                     go("done", items=items + [("ev", ev0)], visits=v2)
                 else:
                     # one iteration done: record and leave (longer runs repeat the same body)
@@ -537,7 +555,7 @@ class PathEngine:
                 env2 = dict(env)
                 env2["$ret"] = self.sym(node.info["value"], env, store, cfg) if node.info["value"] is not None else ("const", None)
                 drop_temps(env2)
-                go(env=env2, items=items + [("ev", PEvent("return", node, value=env2["$ret"], label="return"))])
+                go(env=env2, items=items + [("ev", self._ev(cfg, "return", node, value=env2["$ret"], label="return"))])
             elif k == "raise":
                 exc = node.info["exc"]
                 if exc is None:
@@ -546,18 +564,18 @@ class PathEngine:
                     if v is None:
                         raise AnalysisError(f"{fi.where(node.ast)}: bare raise outside handler")
                     kind = v[1] if v[0] == "exc" else "OtherException"
-                    raise_to(kind, v, items=items + [("ev", PEvent("raise", node, value=v, label="reraise"))])
+                    raise_to(kind, v, items=items + [("ev", self._ev(cfg, "raise", node, value=v, label="reraise"))])
                 else:
                     v = self.sym(exc, env, store, cfg)
                     kind = self.kinds.raise_kind(exc, fi)
                     if kind is None:
                         kind = v[1] if v[0] == "exc" else "?"
                     cause = self.sym(node.info["cause"], env, store, cfg) if node.info["cause"] is not None else None
-                    pe = PEvent("raise", node, value=v, label="raise " + ast.unparse(exc)[:50])
+                    pe = self._ev(cfg, "raise", node, value=v, label="raise " + ast.unparse(exc)[:50])
                     pe.kwargs = {"cause": cause}
                     raise_to(kind, v, items=items + [("ev", pe)])
             elif k == "handler":
-                go(items=items + [("ev", PEvent("handler", node, value=node.info["classes"], label="except " + ",".join(node.info["classes"])))])
+                go(items=items + [("ev", self._ev(cfg, "handler", node, value=node.info["classes"], label="except " + ",".join(node.info["classes"])))])
             elif k == "reraise_pending":
                 pk = env.get(("$pend", node.info["pend"]))
                 if pk is None:
@@ -584,7 +602,7 @@ class PathEngine:
                 old = env.get(tgt.id, ("free", tgt.id))
                 val = ("op", BIN[type(aug)], old, val)
             env[tgt.id] = val
-            return env, store, items + [("ev", PEvent("lstore", node, loc=("local", tgt.id), value=val, label=f"{tgt.id} = {show(val)}"[:80]))]
+            return env, store, items + [("ev", self._ev(cfg, "lstore", node, loc=("local", tgt.id), value=val, label=f"{tgt.id} = {show(val)}"[:80]))]
         if isinstance(tgt, (ast.Tuple, ast.List)):
             for i, e in enumerate(tgt.elts):
                 if val[0] == "tuple" and i < len(val[1]):
@@ -606,7 +624,7 @@ class PathEngine:
             val = ("op", BIN[type(aug)], old, val)
         store = dict(store)
         store[loc] = val
-        ev = PEvent("store", node, loc=loc, value=val, label=f"{show(loc)} := {show(val)}"[:100])
+        ev = self._ev(cfg, "store", node, loc=loc, value=val, label=f"{show(loc)} := {show(val)}"[:100])
         return env, store, items + [("ev", ev)]
 
     def _call(self, cfg: CFG, node: Node, env: dict, store: dict, items: list, go, raise_to, raises) -> None:
@@ -649,8 +667,8 @@ class PathEngine:
             if fname == "typing.cast" and len(args) == 2:
                 res = args[1]
         else:
-            res = ("call", node.id, label)
-        ev = PEvent("call", node, targets=targets, recv=recv, args=args, kwargs=kwargs, result=res, pure=pure, label=label, awaited=bool(node.info.get("awaited")))
+            res = ("call", self._nid(node), label)
+        ev = self._ev(cfg, "call", node, targets=targets, recv=recv, args=args, kwargs=kwargs, result=res, pure=pure, label=label, awaited=bool(node.info.get("awaited")))
         if isinstance(f, ast.Name):
             try:
                 ev.callee = self.sym(f, env, store, cfg)
@@ -659,7 +677,18 @@ class PathEngine:
         items2 = items + [("ev", ev)]
         if raises is not None:
             for kind in raises(ev, cfg):
-                raise_to(kind, None, items=items2 + [("ev", PEvent("exc", node, value=kind, label=label))])
+                raise_to(kind, None, items=items2 + [("ev", self._ev(cfg, "exc", node, value=kind, label=label))])
+        if (
+            self.inline is not None
+            and len(targets) == 1
+            and t0.kind == "repo"
+            and t0.func is not None
+            and len(self._idp) < self.max_inline_depth
+            and self.inline(t0.func)
+            and not isinstance(t0.func.node, ast.Lambda)
+        ):
+            self._inline(cfg, node, t0, call, recv, args, kwargs, env, store, items2, go, raise_to, raises)
+            return
         if targets and all(t.kind == "repo" and t.func is not None and getattr(t.func.node, "returns", None) is not None and ast.unparse(t.func.node.returns).endswith("NoReturn") for t in targets):
             # the callee never returns normally
             raise_to("NoReturn", None, items=items2)
@@ -671,10 +700,86 @@ class PathEngine:
             # an impure call may change any heap location written so far
             if store:
                 if isinstance(f, ast.Attribute) and f.attr in MUTATORS and all(t.kind in ("lib", "unknown") for t in targets):
-                    store2 = {loc: (("havoc", node.id, loc) if contains(loc, recv) else v) for loc, v in store.items()}
+                    store2 = {loc: (("havoc", self._nid(node), loc) if contains(loc, recv) else v) for loc, v in store.items()}
                 else:
-                    store2 = {loc: ("havoc", node.id, loc) for loc in store}
+                    store2 = {loc: ("havoc", self._nid(node), loc) for loc in store}
         go(env=env2, store=store2, items=items2)
+
+
+def _inline_impl(self, cfg, node, tg, call, recv, args, kwargs, env, store, items2, go, raise_to, raises) -> None:
+    """enumerate the callee's paths with its parameters bound to the caller's argument terms and
+    splice them into the caller's path (effects, branch literals and the returned term)"""
+    callee = tg.func
+    pos = callee.positional_params()
+    names = callee.param_names()
+    cenv: dict = {}
+    i0 = 0
+    if callee.is_method and not callee.is_staticmethod and recv is not None:
+        cenv[pos[0]] = recv
+        i0 = 1
+    for j, a in enumerate(args):
+        if i0 + j < len(pos):
+            cenv[pos[i0 + j]] = a
+    for k, v in kwargs.items():
+        if k in names:
+            cenv[k] = v
+    ccfg = self.cfgs.get(callee)
+    for pname, d in callee.param_defaults().items():
+        if pname not in cenv:
+            try:
+                cenv[pname] = self.sym(d, {}, {}, ccfg)
+            except AnalysisError:
+                cenv[pname] = ("fresh", self._nid(node), pname)
+    saved = (self._idp, self._frames, getattr(self, "_depth", 0), getattr(self, "_raises", None))
+    self._idp = self._idp + (node.id,)
+    self._frames = self._frames + ((cfg, node),)
+    try:
+        sub = self.paths(callee, raises=raises, env0=cenv, key=f"inline@{saved[0]}{node.id}", _depth=saved[2] + 1)
+    finally:
+        self._idp, self._frames, self._depth, self._raises = saved
+    for sp in sub:
+        st2 = dict(store)
+        for it in sp.items:
+            if it[0] == "ev" and it[1].kind == "store":
+                st2[it[1].loc] = it[1].value
+            elif it[0] == "ev" and it[1].kind == "call" and not it[1].pure and st2:
+                st2 = {loc: ("havoc", it[1].node.id, loc) for loc in st2}
+        items3 = items2 + [x for x in sp.items if not (x[0] == "ev" and x[1].kind in ("return", "lstore"))]
+        if sp.exit[0] == "return":
+            env2 = dict(env)
+            env2[("$r", id(call))] = sp.exit[1]
+            go(env=env2, store=st2, items=items3)
+        elif sp.exit[0] == "raise":
+            raise_to(sp.exit[1], sp.exit[2] if len(sp.exit) > 2 else None, items=items3, store=st2)
+        else:
+            env2 = dict(env)
+            env2[("$r", id(call))] = ("fresh", self._nid(node), "inlined-loop")
+            go(env=env2, store=st2, items=items3, trunc=True)
+
+
+PathEngine._inline = _inline_impl
+
+
+def default_inline() -> Callable[[FuncInfo], bool]:
+    """inline every repository function that did not exist when the rules were written
+    (helpers extracted by a refactoring), so that rules keep seeing the effects"""
+    import os
+
+    path = os.path.join(os.path.dirname(os.path.abspath(__file__)), "known_funcs.txt")
+    try:
+        with open(path) as fh:
+            known = {ln.strip() for ln in fh if ln.strip()}
+    except OSError:
+        known = None
+
+    def pred(fi: FuncInfo) -> bool:
+        if known is None:
+            return False
+        if fi.qual in known:
+            return False
+        return fi.module.name.startswith("redress.") and not fi.module.name.startswith(("redress.testing", "redress.cli", "redress.contrib"))
+
+    return pred
 
 
 def drop_temps(env: dict) -> None:
